@@ -3,6 +3,7 @@
 package checks
 
 import (
+	"os"
 	"encoding/json"
 	"time"
 
@@ -28,17 +29,17 @@ func histReplay(wit json.RawMessage, prop string) []core.Violation {
 }
 
 func c01Scenarios(thorough bool) []histParams {
-	ev := []string{"ans", "ans:1", "ext:1", "ext:2", "reorg:1:2", "reorg:2:3", "ping", "tick:250", "dup", "restart"}
+	ev := []string{"ans", "ans:1", "ext:1", "ext:2", "ext:12", "reorg:1:2", "reorg:2:3", "back:1", "ping", "tick:250", "settle", "dup", "restart", "drop"}
 	return []histParams{
 		{Prop: "C01", Cfg: WorldCfg{InitialChain: 4, StartHeight: 2, SafeDelayMS: 2000, RemoveMissing: true}, Boot: "synced", Events: ev, Drain: true},
-		{Prop: "C01", Cfg: WorldCfg{InitialChain: 5, StartHeight: 2, SafeDelayMS: 2000, RemoveMissing: true}, Boot: "cold", Events: ev, Drain: true},
+		{Prop: "C01", Cfg: WorldCfg{InitialChain: 16, StartHeight: 2, SafeDelayMS: 2000, RemoveMissing: true}, Boot: "cold", Events: ev, Drain: true},
 	}
 }
 
 func runC01() int {
 	rep := core.NewReport("C01", "model_checking")
 	pool := core.NewPool()
-	depth, maxStates, budget := 4, 60000, 150*time.Second
+	depth, maxStates, budget := 5, 60000, 150*time.Second
 	if rep.Thorough() {
 		depth, maxStates, budget = 7, 2000000, 25*time.Minute
 	}
@@ -85,4 +86,28 @@ func runC01() int {
 	rep.Coverage["rule"] = "explicit-state BFS over environment histories of the real Node.Run under the controlled scheduler against peer model P: events {answer oldest / second-oldest outstanding request, extend by 1/2, reorg depth 1/2, ping, tick 250 ms, duplicate last message, clean restart}; from every reached state a fair drain (answers, announcements, pings, clock steps incl. 61 s and 601 s) must converge to P's best chain; in-sync clause checked at every HandleInSync"
 	rep.Assumptions = []string{"peer model P: answers getheaders from the first locator hash on its best chain, serves any block it has, announces best-chain changes with headers after sendheaders, pings", "hist mode merges states that differ only in the phase of polling loops (DESIGN §3.4)"}
 	return rep.Finish()
+}
+
+// DebugHist prints a trace of one history (developer aid: check.bin debug-hist <scenario#> ev...).
+func DebugHist(args []string) {
+	sc := c01Scenarios(true)[0]
+	if len(args) > 0 {
+		var idx int
+		fmtSscan(args[0], &idx)
+		sc = c01Scenarios(true)[idx]
+		args = args[1:]
+	}
+	traceOn = true
+	r := runHist(sc, args, true)
+	for _, l := range r.w.trace {
+		println(l)
+	}
+	if os.Getenv("VERIF_DUMP") != "" {
+		println(r.w.lastDump)
+	}
+	println("key", r.key, "outcome", r.outcome)
+	for _, v := range r.w.viol {
+		println("VIOL", v.Property, v.Clause, "|", v.Class, "|", v.Detail)
+	}
+	r.w.Close()
 }
